@@ -1262,6 +1262,14 @@ impl<'a, SE: extensions::ShellExtensions> WordExpander<'a, SE> {
                         brush_parser::word::ParameterTestType::Unset,
                         ParameterState::DefinedEmptyString,
                     ) => Ok(self.expand_parameter_word(alternative_value).await?),
+                    // `"${@+word}"` over no elements expands like `"$@"` does: to no
+                    // field at all, rather than to one empty field.
+                    _ if expanded_parameter.from_array
+                        && !expanded_parameter.concatenate
+                        && expanded_parameter.fields.is_empty() =>
+                    {
+                        Ok(expanded_parameter)
+                    }
                     _ => Ok(Expansion::from(String::new())),
                 }
             }
